@@ -21,7 +21,7 @@ func (r vhResp) FunctionCode() uint8 { return r.b[7] }
 func (r vhResp) Bytes() []byte       { return r.b }
 
 // vhHandler: mode 0 conforming response, 1 typed error as handlers build it (packet.NewErrorParseTCP(code, msg)),
-// 2 generic error, 3 panic.
+// 2 generic error, 3 panic, 4 conforming response after a long time.
 type vhHandler struct {
 	mode  int
 	code  uint8
@@ -42,6 +42,8 @@ func (h *vhHandler) Handle(ctx context.Context, req packet.Request) (packet.Resp
 		return nil, errVhHandler
 	case 3:
 		panic("handler panics")
+	case 4:
+		vndAdvanceTime() // a slow handler: time passes (longer than the server's write timeout) before it answers
 	}
 	// echo: transaction id, protocol 0, length 6, unit, function, then the 4 bytes after the function code
 	out := []byte{rb[0], rb[1], 0, 0, 0, 6, rb[6], rb[7], 0, 0, 0, 0}
